@@ -1,23 +1,34 @@
-(* C09, calibration-file half: the loader model is total and what it accepts is well formed. *)
+(* C09, calibration-file half: error classes of the loader model and well-formedness of what it accepts. *)
 Require Import ZArith List Bool String QArith.
 Import ListNotations.
 Require Import LV.CalFile.CalFileModel LV.CalFile.CalFileProofs.
 Open Scope Z_scope.
 
-(* load_total: the model of vnacal_load is a function defined by structural recursion on the node
-   tree (no fuel): it answers on every version line and every tree, with Ok or one of three classes. *)
-Theorem load_total : forall v d, exists r, load v d = r.
-Proof. exact load_total_lemma. Qed.
-Print Assumptions load_total.
+(* Termination of the model needs no theorem: [load] is a Gallina function defined by structural
+   recursion on the node tree (no fuel), which Coq's guard checker verifies when the definition is
+   accepted; a statement "forall v d, exists r, load v d = r" would hold of any function and says
+   nothing about the code.  That the C loader terminates on every input is exercised by the tie
+   (every generated input under a watchdog), not proved.  The theorems below say where each error
+   class can come from. *)
 
-Theorem load_error_classes : forall v d e, load v d = Err e -> e = EBadMsg \/ e = EProto \/ e = ESys.
-Proof. exact load_error_class. Qed.
-Print Assumptions load_error_classes.
+(* ENOPROTOOPT comes from the version line and from nowhere else: no parser below the version test
+   can produce it, and a rejected version line is reported whatever the document holds *)
+Theorem load_enoprotoopt_iff_version : forall v d, load v d = Err EProto <-> version_of v = Err EProto.
+Proof. exact load_eproto_iff. Qed.
+Print Assumptions load_enoprotoopt_iff_version.
+
+(* once the version line is accepted, a failure is EBADMSG or the system error of the property
+   import (a key the property syntax rejects); the data parsers alone only produce EBADMSG
+   (lemmas *_ob of CalFile/CalFileProofs.v) *)
+Theorem load_errors_after_version : forall v ver d e, version_of v = Ok ver -> load v d = Err e -> e = EBadMsg \/ e = ESys.
+Proof. exact load_version_ok_errors. Qed.
+Print Assumptions load_errors_after_version.
 
 (* load_ok_wf_partial: every calibration of an accepted document has dimensions that fit its type,
    as many data entries as declared and strictly ascending frequencies.  Missing for the full
-   load_ok_wf: "every error-term cell is written" is proved only through emit_parse_terms_partial
-   (Properties_C07.v) and checked on every tie input by evaluating wf_cells on the model's result. *)
+   load_ok_wf: "every error-term cell is written" is proved for the documents the saver model builds
+   (emit_parse_terms / save_load_doc of Properties_C07.v: all types, all dimensions), not for an arbitrary
+   accepted tree; there it is checked on every tie input by evaluating wf_cells on the model's result. *)
 Theorem load_ok_wf_partial : forall v d cals, load v d = Ok cals -> Forall (fun c => wf_shape c = true) cals.
 Proof. exact load_ok_wf_shape. Qed.
 Print Assumptions load_ok_wf_partial.
